@@ -178,6 +178,12 @@ def check_case(case) -> Obs:
             op["cap"] = case["M"]
             if k % 2:
                 op["distinct_on"] = "evo"  # wells distinct by id; on the Fluent several of them may share a position
+                t_ = troughs[op["dst"] % len(troughs)]
+                if specs[t_]["vrows"] >= 2 and k % 4 == 1:
+                    # two virtual rows of one column of a trough as destinations
+                    c_ = op["col"] % specs[t_]["cols"]
+                    op["dst"], op["dw"] = t_, {"t": "list", "w": [[0, c_], [1, c_]]}
+                    obs.cls("distribute-into-virtual-rows-of-one-column")
         if kind == "evo_dispense":
             op["cap"] = case["M"]
             if case["device"] != "evo":
